@@ -23,7 +23,9 @@ META = {
                   'states in which no sender is inside a call (handlers run to completion).',
     'level_note': 'NOT proved, only checked on every run by the correspondence (sampling + small exhaustive scopes, never called proof): the liveness bound (def dispatch_within_runq_passes; only the FIFO shape lemma '
                   'dispatch_within_runq_passes_partial is proved) - the monitor\'s `starved` verdict (a request outstanding at the beginning of nf complete undisturbed passes) checks it on the real code; '
-                  'that the abstract monitor (event FIFO by claim instant, oversleeps, starved) never complains about the MODEL is not a theorem - it is evaluated on the real code\'s output of every history; '
+                  'model_refines_monitor / model_settles PROVE that the abstract monitor never complains about the MODEL (verdict ok: no event out of order, no oversleeping pass, no starved request; after a quiescent run '
+                  'ending idle owed = [] and mustget = []) for every history WITHOUT thread-sender items whose calls name existing fibres (decidable scope ItemOk) that is not cut for lack of fuel; with "implementation = model on the compared outputs" '
+                  '(sampled) this gives implementation |= spec; for thread-sender items the monitor is only evaluated on the real code\'s output (its liveness rules are suspended while a thread sender is in flight); '
                   'sortedness of the timer queue under interrupts (C02\'s time-window scope; interrupts never touch it: senders_leave_scheduler_alone). '
                   'Events are FIFO in CLAIM order (C04); that is the order of the sends whenever claim..send sections do not overlap. '
                   'Trusted: Lean kernel (standard axioms, no bv_decide); the hand model, validated on every run against the real code: identical output (dispatch order, fibre_self, returned wake-up, every boolean, '
@@ -40,7 +42,7 @@ REQUIRED = ['Librfn.C06.' + t for t in (
     'accepted_never_lost', 'held_entry_joins_runq', 'history_accepted_never_lost', 'queues_not_corrupted', 'senders_leave_scheduler_alone',
     'queues_satisfy_mq_inv', 'shifts_defined', 'drained_by_pass', 'drain_leaves_nothing', 'drain_leaves_nothing_quiet', 'fast_path_not_taken',
     'events_exactly_once_in_order', 'event_carries_its_senders_stamp', 'no_lost_event_wakeup', 'no_lost_event_wakeup_isr',
-    'wakeup_with_isr', 'wake_value_is_returned', 'wakeup_with_isr_quiet', 'history_reachable', 'history_interrupt_only', 'interrupts_run_to_completion')]
+    'wakeup_with_isr', 'wake_value_is_returned', 'wakeup_with_isr_quiet', 'model_refines_monitor', 'model_settles', 'model_settled_bool', 'history_reachable', 'history_interrupt_only', 'interrupts_run_to_completion')]
 
 NFMAX = 8
 
